@@ -53,18 +53,7 @@ pub proof fn lemma_ts_order(a: Timestamp, b: Timestamp)
 {
 }
 
-impl FromSpecImpl<usize> for SequenceNumber {
-    open spec fn obeys_from_spec() -> bool { true }
-    open spec fn from_spec(v: usize) -> Self { SequenceNumber(v as i64) }
-}
-impl From<usize> for SequenceNumber {
-@@extract fn src/structure/sequence_number.rs "From<usize> for SequenceNumber::from"
-@@nopub
-@@ret r
-@@ensures sn.from_usize
-    r.0 == value as i64
-@@end
-}
+@@include shims/history_sn_conv.rs
 
 pub assume_specification<T: Ord + core::marker::Destruct>[ std::cmp::max ](a: T, b: T) -> (r: T)
     ensures r == (if a.cmp_spec(&b) == Ordering::Greater { a } else { b });
